@@ -8,6 +8,11 @@ HOOK_COMMITS = ["204cfe3", "2edc694", "e1d8638"]
 
 # id -> (category, technique, level text, level note, design ref)
 CHECKS = {
+ "C10": ("exploration",
+         "runtime oracle on the numeric package and the real range decomposition (hook) over an exhaustive boundary set, plus end-to-end range queries through a look-up counting reader (logical-step termination oracle)",
+         "Round trip and order embedding are checked for all pairs of a boundary set at all 64 shifts; the real splitInt64Range output is checked for exactness on every interval x value of the set; numeric and date range queries are run end to end on a multi-segment index for all end-point pairs and open/closed combinations, counting dictionary look-ups so that a search that does not terminate is recognised by steps, not by a clock. Exhaustive over the boundary set, sampled beyond it.",
+         "Trusts: Go runtime; bytes.Compare as the term order of the dictionary; the boundary set construction. -0 and +0 are distinct points.",
+         "DESIGN.md §4 C10"),
  "C19": ("exploration",
          "runtime oracle on mergeplan.Plan over generated inputs + sizes-only plan/execute simulator with step-counting call-back",
          "Every generated segment list x option set is planned by the real planner and the plan is checked for membership, disjointness, size bound, half-size eligibility and determinism; termination is decided on logical steps (scoring call-backs per call); boundedness is decided at every quiescent point of simulated arrival/delete/execute histories against a budget the harness computes itself. Held on the inputs and histories explored, not a proof.",
